@@ -279,6 +279,11 @@ type streamItem[T any] struct {
 }
 
 func newStream[T any](cap int) *stream[T] {
+	if verifhook.On {
+		s := &stream[T]{items: make(chan streamItem[T], cap), closed: make(chan struct{})}
+		verifhook.EvP("stream.new", s, "")
+		return s
+	}
 	return &stream[T]{
 		items:  make(chan streamItem[T], cap),
 		closed: make(chan struct{}),
@@ -296,6 +301,7 @@ func (s *stream[T]) recv() (chunk T, err error) {
 
 	if !ok {
 		item.err = io.EOF
+		verifhook.EvP("stream.eof", s, "")
 	}
 
 	return item.chunk, item.err
@@ -330,6 +336,7 @@ func (s *stream[T]) closeSend() {
 
 func (s *stream[T]) closeRecv() {
 	verifhook.Y("stream.closeRecv.pre")
+	verifhook.EvP("stream.closeRecv", s, "")
 	close(s.closed)
 }
 
@@ -575,6 +582,7 @@ func copyStreamReaders[T any](sr *StreamReader[T], n int) []*StreamReader[T] {
 		subStreamList: make([]*cpStreamElement[T], n),
 		closedNum:     0,
 	}
+	verifhook.EvP("copy.new", cpsr, verifhook.Itoa(n))
 
 	// Initialize subStreamList with an empty element, which acts like a tail node.
 	// A nil element (used for dereference) represents that the child has been closed.
@@ -643,6 +651,8 @@ func (p *parentStreamReader[T]) peek(idx int) (t T, err error) {
 	err = elem.item.err
 	if err != io.EOF {
 		p.subStreamList[idx] = elem.next
+	} else {
+		verifhook.EvP("copy.eof", p, verifhook.Itoa(idx))
 	}
 
 	return t, err
@@ -656,6 +666,7 @@ func (p *parentStreamReader[T]) close(idx int) {
 	p.subStreamList[idx] = nil
 
 	verifhook.Y("stream.copyclose.pre")
+	verifhook.EvP("copy.close", p, verifhook.Itoa(idx))
 	curClosedNum := atomic.AddUint32(&p.closedNum, 1)
 
 	allClosed := int(curClosedNum) == len(p.subStreamList)
